@@ -703,7 +703,7 @@ def extract_animation_properties(
     for obj in objs:
         subobjs = [obj]
         if isinstance(obj, Collection):
-            subobjs.extend(obj.children)
+            subobjs.extend(obj.children_all)
         for subobj in subobjs:
             path_len = getattr(subobj, "_position", np.array((0.0, 0.0, 0.0))).shape[0]
             path_lengths.append(path_len)
